@@ -1,0 +1,330 @@
+// Verification hooks for the notification protocol (cfg(feature = "verif") only, adds code only):
+// a single-step driver around the real `NotificationProtocol` with a real `TransportService`,
+// a collecting executor for the `Connection` tasks, event injection and read accessors.
+
+use super::*;
+use crate::{
+    codec::ProtocolCodec,
+    executor::Executor,
+    protocol::{connection::ConnectionHandle, InnerTransportEvent, ProtocolCommand},
+    substream::VerifIo,
+    transport::{
+        manager::{
+            handle::{InnerTransportManagerCommand, TransportManagerHandle},
+            SupportedTransport,
+        },
+        Endpoint, KEEP_ALIVE_TIMEOUT,
+    },
+    types::ConnectionId,
+};
+
+use std::{
+    collections::HashSet,
+    future::Future,
+    pin::Pin,
+    sync::Arc,
+    task::{Context, Poll},
+};
+
+type Task = Pin<Box<dyn Future<Output = ()> + Send>>;
+
+/// Executor which only collects the futures; the driver polls them explicitly.
+#[derive(Default)]
+struct CollectingExecutor {
+    spawned: parking_lot::Mutex<Vec<Task>>,
+}
+
+impl Executor for CollectingExecutor {
+    fn run(&self, future: Task) {
+        self.spawned.lock().push(future);
+    }
+
+    fn run_with_name(&self, _: &'static str, future: Task) {
+        self.spawned.lock().push(future);
+    }
+}
+
+/// Call made by the protocol on its `TransportService`.
+#[derive(Debug, Clone, PartialEq, Eq)]
+pub enum VerifServiceCall {
+    Dial(PeerId),
+    OpenSubstream(PeerId, usize),
+    ForceClose(PeerId),
+}
+
+/// Single-step driver for `NotificationProtocol`.
+pub struct VerifNotification {
+    protocol: NotificationProtocol,
+    event_tx: Sender<InnerTransportEvent>,
+    executor: Arc<CollectingExecutor>,
+    tasks: Vec<Option<Task>>,
+    connections: HashMap<PeerId, Receiver<ProtocolCommand>>,
+    dial_rx: Receiver<InnerTransportManagerCommand>,
+    codec: ProtocolCodec,
+}
+
+impl VerifNotification {
+    /// Real protocol over a real `TransportService`; `dialable` peers have a known address.
+    pub fn new(
+        auto_accept: bool,
+        should_dial: bool,
+        handshake: Vec<u8>,
+        dialable: &[PeerId],
+    ) -> (Self, NotificationHandle) {
+        let local = PeerId::random();
+        let (cmd_tx, dial_rx) = channel(1024);
+        let mut handle = TransportManagerHandle::new(
+            local,
+            Arc::new(parking_lot::RwLock::new(HashMap::new())),
+            cmd_tx,
+            HashSet::new(),
+            Default::default(),
+            crate::addresses::PublicAddresses::new(local),
+        );
+        handle.register_transport(SupportedTransport::Tcp);
+        for (i, peer) in dialable.iter().enumerate() {
+            let address: Multiaddr = format!("/ip4/127.0.0.1/tcp/{}", 10000 + i)
+                .parse::<Multiaddr>()
+                .expect("valid address")
+                .with(multiaddr::Protocol::P2p((*peer).into()));
+            handle.add_known_address(peer, std::iter::once(address));
+        }
+
+        let (service, event_tx) = TransportService::new(
+            local,
+            ProtocolName::from("/notif/1"),
+            Vec::new(),
+            Arc::new(Default::default()),
+            handle,
+            KEEP_ALIVE_TIMEOUT,
+            crate::protocol::SubstreamKeepAlive::Yes,
+        );
+        let (config, handle) = Config::new(
+            ProtocolName::from("/notif/1"),
+            1024usize,
+            handshake,
+            Vec::new(),
+            auto_accept,
+            64,
+            64,
+            should_dial,
+        );
+        let codec = config.codec;
+        let executor = Arc::new(CollectingExecutor::default());
+        let protocol = NotificationProtocol::new(service, config, executor.clone());
+
+        (
+            Self {
+                protocol,
+                event_tx,
+                executor,
+                tasks: Vec::new(),
+                connections: HashMap::new(),
+                dial_rx,
+                codec,
+            },
+            handle,
+        )
+    }
+
+    fn inject(&mut self, event: InnerTransportEvent) {
+        self.event_tx.try_send(event).expect("transport service channel has capacity");
+    }
+
+    pub fn inject_connection_established(&mut self, peer: PeerId, connection: usize) {
+        let (tx, rx) = channel(1024);
+        self.connections.insert(peer, rx);
+        let connection = ConnectionId::from(connection);
+        self.inject(InnerTransportEvent::ConnectionEstablished {
+            peer,
+            connection,
+            endpoint: Endpoint::dialer(Multiaddr::empty(), connection),
+            sender: ConnectionHandle::new(connection, tx),
+        });
+    }
+
+    pub fn inject_connection_closed(&mut self, peer: PeerId, connection: usize) {
+        self.connections.remove(&peer);
+        self.inject(InnerTransportEvent::ConnectionClosed {
+            peer,
+            connection: ConnectionId::from(connection),
+        });
+    }
+
+    /// Drop the command receiver of the connection: later `open_substream`/`force_close` fail.
+    pub fn kill_connection_channel(&mut self, peer: PeerId) {
+        self.connections.remove(&peer);
+    }
+
+    /// `outbound = Some(substream id)` for an outbound substream, `None` for an inbound one.
+    pub fn inject_substream(
+        &mut self,
+        peer: PeerId,
+        connection: usize,
+        outbound: Option<usize>,
+        io: Box<dyn VerifIo>,
+    ) {
+        let (direction, id) = match outbound {
+            Some(id) => (
+                crate::protocol::Direction::Outbound(SubstreamId::from(id)),
+                id,
+            ),
+            None => (crate::protocol::Direction::Inbound, usize::MAX),
+        };
+        let substream = Substream::new_verif(peer, SubstreamId::from(id), io, self.codec.clone());
+        let (permit_tx, _permit_rx) = channel(1);
+        self.inject(InnerTransportEvent::SubstreamOpened {
+            peer,
+            protocol: ProtocolName::from("/notif/1"),
+            fallback: None,
+            direction,
+            substream,
+            connection_id: ConnectionId::from(connection),
+            opening_permit: crate::protocol::Permit::new(permit_tx),
+        });
+    }
+
+    pub fn inject_substream_open_failure(&mut self, substream: usize) {
+        self.inject(InnerTransportEvent::SubstreamOpenFailure {
+            substream: SubstreamId::from(substream),
+            error: SubstreamError::ConnectionClosed,
+        });
+    }
+
+    pub fn inject_dial_failure(&mut self, peer: PeerId) {
+        self.inject(InnerTransportEvent::DialFailure {
+            peer,
+            addresses: Vec::new(),
+        });
+    }
+
+    /// Make the 5-second negotiation timer of `peer` expire now.
+    pub fn fire_timer(&mut self, peer: PeerId) {
+        self.protocol.timers.push(Box::pin(async move { peer }));
+    }
+
+    /// Poll `NotificationProtocol::next_event()` exactly once. `None`: no branch was ready.
+    pub fn poll_event(&mut self) -> Option<bool> {
+        let waker = futures::task::noop_waker();
+        let mut cx = Context::from_waker(&waker);
+        let future = self.protocol.next_event();
+        futures::pin_mut!(future);
+        match future.poll(&mut cx) {
+            Poll::Ready(exit) => Some(exit),
+            Poll::Pending => None,
+        }
+    }
+
+    /// Poll every live `Connection` task once (spawn order); returns how many completed.
+    pub fn poll_tasks(&mut self) -> usize {
+        self.tasks.extend(self.executor.spawned.lock().drain(..).map(Some));
+        let waker = futures::task::noop_waker();
+        let mut cx = Context::from_waker(&waker);
+        let mut done = 0;
+        for slot in self.tasks.iter_mut() {
+            if let Some(task) = slot {
+                if task.as_mut().poll(&mut cx).is_ready() {
+                    *slot = None;
+                    done += 1;
+                }
+            }
+        }
+        done
+    }
+
+    /// Number of `Connection` tasks spawned so far / still alive.
+    pub fn tasks(&mut self) -> (usize, usize) {
+        self.tasks.extend(self.executor.spawned.lock().drain(..).map(Some));
+        (
+            self.tasks.len(),
+            self.tasks.iter().filter(|t| t.is_some()).count(),
+        )
+    }
+
+    /// Calls made on the service since the last call of this function.
+    pub fn take_service_calls(&mut self) -> Vec<VerifServiceCall> {
+        let mut calls = Vec::new();
+        while let Ok(command) = self.dial_rx.try_recv() {
+            if let InnerTransportManagerCommand::DialPeer { peer } = command {
+                calls.push(VerifServiceCall::Dial(peer));
+            }
+        }
+        let mut peers: Vec<PeerId> = self.connections.keys().copied().collect();
+        peers.sort_by_key(|p| p.to_bytes());
+        for peer in peers {
+            let rx = self.connections.get_mut(&peer).expect("peer exists");
+            while let Ok(command) = rx.try_recv() {
+                match command {
+                    ProtocolCommand::OpenSubstream { substream_id, .. } => calls
+                        .push(VerifServiceCall::OpenSubstream(peer, substream_id.verif_as_usize())),
+                    ProtocolCommand::ForceClose => calls.push(VerifServiceCall::ForceClose(peer)),
+                }
+            }
+        }
+        calls
+    }
+
+    /// Peer state as numbers:
+    /// `[0]` absent, `[1]` poisoned, `[2, conn_open]` validation pending, `[3, pending_open+1 | 0]`
+    /// closed, `[4]` dialing, `[5, sid]` outbound initiated,
+    /// `[6, direction(0 in,1 out), outbound tag, sid|0, inbound tag]` validating, `[7]` open.
+    /// Outbound tags: 0 closed, 1 initiated, 2 negotiating, 3 open; inbound tags: 0 closed,
+    /// 1 reading handshake, 2 validating, 3 sending handshake, 4 open.
+    pub fn peer_state(&self, peer: &PeerId) -> Vec<usize> {
+        match self.protocol.peers.get(peer).map(|context| &context.state) {
+            None => vec![0],
+            Some(PeerState::Poisoned) => vec![1],
+            Some(PeerState::ValidationPending { state }) =>
+                vec![2, (*state == ConnectionState::Open) as usize],
+            Some(PeerState::Closed { pending_open }) =>
+                vec![3, pending_open.map_or(0, |id| id.verif_as_usize() + 1)],
+            Some(PeerState::Dialing) => vec![4],
+            Some(PeerState::OutboundInitiated { substream }) => vec![5, substream.verif_as_usize()],
+            Some(PeerState::Validating {
+                outbound,
+                inbound,
+                direction,
+                ..
+            }) => {
+                let (otag, sid) = match outbound {
+                    OutboundState::Closed => (0, 0),
+                    OutboundState::OutboundInitiated { substream } => (1, substream.verif_as_usize()),
+                    OutboundState::Negotiating => (2, 0),
+                    OutboundState::Open { .. } => (3, 0),
+                };
+                let itag = match inbound {
+                    InboundState::Closed => 0,
+                    InboundState::ReadingHandshake => 1,
+                    InboundState::Validating { .. } => 2,
+                    InboundState::SendingHandshake => 3,
+                    InboundState::Open { .. } => 4,
+                };
+                vec![
+                    6,
+                    matches!(direction, Direction::Outbound) as usize,
+                    otag,
+                    sid,
+                    itag,
+                ]
+            }
+            Some(PeerState::Open { .. }) => vec![7],
+        }
+    }
+
+    /// Is a substream of `peer` held by the handshake service (inbound / outbound)?
+    pub fn negotiating(&self, peer: &PeerId) -> (bool, bool) {
+        (
+            self.protocol.negotiation.verif_contains(peer, negotiation::Direction::Inbound),
+            self.protocol.negotiation.verif_contains(peer, negotiation::Direction::Outbound),
+        )
+    }
+
+    /// `pending_outbound`, sorted by substream id.
+    pub fn pending_outbound(&self) -> Vec<(usize, PeerId)> {
+        let mut out: Vec<(usize, PeerId)> =
+            self.protocol.pending_outbound.iter().map(|(id, peer)| (id.verif_as_usize(), *peer)).collect();
+        out.sort_by_key(|(id, _)| *id);
+        out
+    }
+}
+
